@@ -702,7 +702,9 @@ func init() {
 			return []Plan{{Cases: n, Workers: 2, Race: true, MaxProcs: 8, Timeout: 40 * time.Minute, HangIsViol: true},
 				{Cases: n, Workers: 2, MaxProcs: 8, Timeout: 40 * time.Minute, HangIsViol: true}}
 		},
-		Run:       func(w *W, phase, idx int) { tornRound(w, idx+100*phase) },
+		Run: func(w *W, phase, idx int) {
+			withWatchdog(w, idx, fmt.Sprintf("E3:torn:round%d", idx+100*phase), 10*time.Minute, func() { tornRound(w, idx+100*phase) })
+		},
 		MinEvents: map[string]int64{"reader_callbacks": 10000, "reader_callbacks_overlapping_a_commit": 1000},
 	})
 	register(&Property{ID: "C18", Level: "exploration",
@@ -715,7 +717,10 @@ func init() {
 			}
 			return []Plan{{Cases: n, Workers: 2, Race: true, MaxProcs: 8, Timeout: 40 * time.Minute, HangIsViol: true}}
 		},
-		Run:       func(w *W, phase, idx int) { raceRound(w, idx) },
+		Run: func(w *W, phase, idx int) {
+			mix := raceMixes[idx%len(raceMixes)]
+			withWatchdog(w, idx, fmt.Sprintf("E3:race:%s:rep%d", mix.name, idx/len(raceMixes)), 10*time.Minute, func() { raceRound(w, idx) })
+		},
 		Post:      collectRaces,
 		MinEvents: map[string]int64{"rounds_completed": 6, "grow-vs-read.reads": 1000, "schema-beside-writers.commits_while_building": 10, "snapshot-restore.commits_while_a_snapshot_was_running": 10},
 	})
